@@ -152,7 +152,10 @@ func (k *Keeper) ApplyTransaction(ctx sdk.Context, tx *ethtypes.Transaction) (*e
 		// Opcode REVERT provides a way to stop execution and revert state changes, without consuming all provided gas.
 		// Thus, all the other failure will consume all gas.
 		// That why we are going to consume all gas here because this is not caused-by-REVERT-opcode.
-		k.ResetGasMeterAndConsumeGas(ctx, ctx.GasMeter().Limit())
+		// "All gas" is the gas limit of the transaction, which is also the limit of the gas meter the ante handler installs.
+		// A message that arrives through the message router (governance proposal, interchain account) runs on the caller's
+		// gas meter: filling an infinite one up to its limit would make the caller's next store access panic with a gas overflow.
+		k.ResetGasMeterAndConsumeGas(ctx, tx.Gas())
 
 		return nil, errorsmod.Wrap(err, "failed to apply ethereum core message")
 	}
